@@ -10,6 +10,7 @@ import EaselModel.Buffer.TotalHist
 import EaselModel.Buffer.MemExact
 import EaselModel.Buffer.Stable
 import EaselModel.Buffer.MemRealLemmas  -- round4-mem
+import EaselModel.Buffer.MemRealStart  -- round 6
 import EaselModel.Buffer.OpenFileLemmas -- round4-open
 /-! # C05 — the input buffer behaves as a byte array with a cursor in every mode and history
 
@@ -189,9 +190,29 @@ theorem get_all_in_memory (P : Nat) (a : AState) (s : Sess) (r : R P a s) (hf : 
     yields the specification's observation and a related state again (anchor bookkeeping included). -/
 theorem step_simulates (P : Nat) (op : Op) : SimStep P op := sim_all P op
 
-/-- FULL STATEMENT (false of the code): while a stable anchor is in force no `buffer_refill` moves or reallocates the
-    window, i.e. `∀ b nmin, b.anchor = some 0 → (refill b nmin).2.memgen = b.memgen`.
-    PROVED PART: it holds as long as the next page still fits behind the loaded bytes. -/
+/-- **FULL STATEMENT, true of the repaired code** (fix C05-stable-anchor-keep-oldmem; `pinned b` = the working tree has the repair
+    — regenerated constant `BufConsts.stableRetire` — and `bf->stable` is set): while a stable anchor is in force NO
+    `buffer_refill` moves or frees a byte that was handed out — for every window, every `nmin`, however little room is left:
+    the bytes loaded before are still there at the same place (`b.mem` is a prefix of the new window, `base` unchanged), the
+    flag stays set, `memgen` (bumped by every memmove/realloc/free of handed-out bytes) is unchanged. -/
+theorem stable_ptr_valid (b : Buf) (nmin : Nat) (hpin : pinned b = true) :
+    (refill b nmin).2.memgen = b.memgen ∧ (refill b nmin).2.stab = b.stab ∧ (refill b nmin).2.base = b.base ∧
+      b.mem <+: (refill b nmin).2.mem :=
+  refill_pinned b nmin hpin
+
+/-- the price of the repair is bounded: under a stable anchor the allocation at least doubles when it grows (so the retired
+    blocks, each at most half of its successor, sum to less than the live block) and never exceeds twice the need -/
+theorem stable_growth_bounded (b : Buf) (hpin : pinned b = true) :
+    (grow b).balloc ≤ max b.balloc (2 * (b.n + b.pagesize)) ∧ b.n + b.pagesize ≤ max b.balloc (grow b).balloc ∧
+      (b.balloc < (grow b).balloc → 2 * b.balloc ≤ (grow b).balloc) :=
+  grow_pinned_bound b hpin
+
+-- non-vacuity: a pinned state that has to grow (2-byte window of a 4-byte stream, page 2, no room), on a tree with the repair
+example : BufConsts.stableRetire = true → pinned stableWitness = true ∧ stableWitness.n + stableWitness.pagesize > stableWitness.balloc := by decide
+
+/-- WITHOUT the repair the full statement `∀ b nmin, b.anchor = some 0 → (refill b nmin).2.memgen = b.memgen` is false
+    (`stable_ptr_valid_fails_at`, `stable_ptr_valid_iff`).
+    PROVED PART (both trees): it holds as long as the next page still fits behind the loaded bytes. -/
 theorem stable_ptr_valid_partial (b : Buf) (nmin : Nat) (ha : b.anchor = some 0) (hroom : b.n + b.pagesize ≤ b.balloc) :
     (refill b nmin).2.memgen = b.memgen :=
   refill_stable_room b nmin ha hroom
@@ -214,7 +235,7 @@ theorem open_quiet (mode : Mode) (ps : Nat) (src : Bytes)
 /-- … and it fails without that hypothesis: stable anchor at offset 0 of the stream "abcd" read with page size 2;
     the refill that `GetLine` issues reallocates the window (known finding `C05:stable-anchor:realloc-in-refill`). -/
 theorem stable_ptr_valid_fails_at :
-    stableWitness.anchor = some 0 ∧ (refill stableWitness 1).2.memgen ≠ stableWitness.memgen := by decide
+    stableWitness.anchor = some 0 ∧ (BufConsts.stableRetire = false → (refill stableWitness 1).2.memgen ≠ stableWitness.memgen) := by decide
 
 -- non-vacuity: the hypotheses of the theorems are met by the state every opener produces
 example : WF (openBuf .stream 3 [97, 13, 10, 98]) ∧ Loaded (openBuf .stream 3 [97, 13, 10, 98]) :=
@@ -388,24 +409,24 @@ example : (memRun (AState.init srcW) [.setOffset 40, .setAnchor 7, .setOffset 7,
     page fits behind the loaded bytes, `n + pagesize ≤ balloc`. (`stable_ptr_valid_partial` is the `←` direction;
     `stable_ptr_valid_fails_at` is an instance of `→`.) The property's clause "stay valid until it is raised" holds of
     the code exactly on the histories all of whose refills satisfy the right-hand side. -/
-theorem stable_ptr_valid_iff (b : Buf) (nmin : Nat) (hp : b.pos ≤ b.n) (ha : b.anchor = some 0) :
+theorem stable_ptr_valid_iff (b : Buf) (nmin : Nat) (hnp : pinned b = false) (hp : b.pos ≤ b.n) (ha : b.anchor = some 0) :
     (refill b nmin).2.memgen = b.memgen ↔
       (b.hasfp = false ∨ b.eof = true ∨ nmin + b.pagesize ≤ b.n - b.pos ∨ b.n + b.pagesize ≤ b.balloc) :=
-  refill_stable_iff b nmin hp ha
+  refill_stable_iff b nmin hnp hp ha
 
 /-- **Plain anchors never promise pointer validity**: a refill that has to shift under a plain anchor `a > 0` keeps the
     bytes from the anchor on but moves them, so pointers handed out since the anchor was set dangle. -/
-theorem plain_anchor_no_promise (b : Buf) (nmin a : Nat) (hf : b.hasfp = true) (he : b.eof = false) (ha : b.anchor = some a)
+theorem plain_anchor_no_promise (b : Buf) (nmin a : Nat) (hst : b.stab = false) (hf : b.hasfp = true) (he : b.eof = false) (ha : b.anchor = some a)
     (ha0 : 0 < a) (hap : a ≤ b.pos) (hpn : b.pos < b.n) (hneed : b.n - b.pos < nmin + b.pagesize)
     (hfull : b.balloc - b.n < b.pagesize) : (refill b nmin).2.memgen ≠ b.memgen :=
-  plain_anchor_moves b nmin a hf he ha ha0 hap hpn hneed hfull
+  plain_anchor_moves b nmin a (by unfold pinned; rw [hst]; exact Bool.and_false _) hf he ha ha0 hap hpn hneed hfull
 
 -- non-vacuity: both sides of the iff occur, and the hypotheses of `plain_anchor_no_promise` are met in a reachable state
 example : stableWitness.pos ≤ stableWitness.n ∧ stableWitness.anchor = some 0 ∧
     ¬ (stableWitness.hasfp = false ∨ stableWitness.eof = true ∨ 1 + stableWitness.pagesize ≤ stableWitness.n - stableWitness.pos ∨
        stableWitness.n + stableWitness.pagesize ≤ stableWitness.balloc) := by decide
 example : ({ stableWitness with balloc := 8 } : Buf).n + ({ stableWitness with balloc := 8 } : Buf).pagesize ≤ ({ stableWitness with balloc := 8 } : Buf).balloc := by decide
-example : plainWitness.hasfp = true ∧ plainWitness.eof = false ∧ plainWitness.anchor = some 1 ∧ 1 ≤ plainWitness.pos ∧
+example : plainWitness.stab = false ∧ plainWitness.hasfp = true ∧ plainWitness.eof = false ∧ plainWitness.anchor = some 1 ∧ 1 ≤ plainWitness.pos ∧
     plainWitness.pos < plainWitness.n ∧ plainWitness.n - plainWitness.pos < 0 + plainWitness.pagesize ∧
     plainWitness.balloc - plainWitness.n < plainWitness.pagesize := by decide
 example : (refill plainWitness 0).2.memgen ≠ plainWitness.memgen := by decide
@@ -520,6 +541,31 @@ theorem memIsReal_spec (p : Bytes) : Mem.memIsReal (some p) = some (Mem.isRealSp
 
 theorem memIsReal_no_fault (p : Option Bytes) : Mem.memIsReal p ≠ none :=
   Mem.memIsReal_ne_none p
+
+/-- **`esl_mem_IsReal` after fix C05-mem-isreal-garbage** (model `Mem.memIsRealL`, selected by the regenerated constant
+    `MemConsts.isRealStart`): for every byte string it answers `isRealSpecL p = isRealSpec p && startsNum (…)` — what it
+    accepted before, provided a number STARTS right after the blanks and one optional sign (a digit, or `.` and a digit:
+    exactly when `strtod`/`atof` convert a non-empty decimal prefix); NULL is FALSE; it never reads outside the `n` bytes. -/
+theorem memIsRealL_spec (p : Bytes) : Mem.memIsRealL (some p) = some (Mem.isRealSpecL p) ∧ Mem.memIsRealL none = some false :=
+  ⟨Mem.memIsRealL_eq p, rfl⟩
+
+theorem memIsRealL_no_fault (p : Option Bytes) : Mem.memIsRealL p ≠ none :=
+  Mem.memIsRealL_ne_none p
+
+/-- soundness against the header ("TRUE iff convertible by the rules of atof()"), which the old code lacked: whatever the
+    repaired function accepts has a number right after the blanks and the sign; and the repair only removes answers -/
+theorem memIsRealL_sound (p : Bytes) (h : Mem.memIsRealL (some p) = some true) :
+    Mem.startsNum (Mem.stripSign (p.dropWhile Mem.isspaceB)) = true ∧ Mem.memIsReal (some p) = some true :=
+  ⟨Mem.memIsRealL_true_starts p h, Mem.memIsRealL_le p h⟩
+
+-- "abc1", "--1", "e5", ".e1" are refused now; "1x" and "25.00;" (Pfam) are still accepted — trailing bytes as with atof(); " -.5e3 " is accepted
+example : Mem.memIsRealL (some [97, 98, 99, 49]) = some false := by rw [Mem.memIsRealL_eq]; decide
+example : Mem.memIsRealL (some [45, 45, 49]) = some false := by rw [Mem.memIsRealL_eq]; decide
+example : Mem.memIsRealL (some [101, 53]) = some false := by rw [Mem.memIsRealL_eq]; decide
+example : Mem.memIsRealL (some [46, 101, 49]) = some false := by rw [Mem.memIsRealL_eq]; decide
+example : Mem.memIsRealL (some [49, 120]) = some true := by rw [Mem.memIsRealL_eq]; decide
+example : Mem.memIsRealL (some [50, 53, 46, 48, 48, 59]) = some true := by rw [Mem.memIsRealL_eq]; decide
+example : Mem.memIsRealL (some [32, 45, 46, 53, 101, 51, 32]) = some true := by rw [Mem.memIsRealL_eq]; decide
 
 -- accepted although not numbers: "1x", "abc1", "--1"; "1e-5" is accepted only through the same accident; "1.2.3" is refused
 example : Mem.memIsReal (some [49, 120]) = some true := by rw [Mem.memIsReal_eq]; decide
